@@ -154,7 +154,9 @@ where
     for<'x> INodeOfFunc<'x, K::F>: HasLevel,
 {
     use oxidd::{Edge, Function, InnerNode, Manager, Node};
-    let k = 16u32;
+    // ZBDD: Boolean connectives on variables walk the don't-care chains, which is exponential in the
+    // number of variables when the apply cache is compiled out; 20 variables keep that affordable
+    let k = if K::SEM == Sem::ZeroSup { 10u32 } else { 16u32 };
     let n = 2 * k;
     let mref = K::new_manager(1 << 21, 1 << 16, 2);
     mref.with_manager_exclusive(|m| {
@@ -192,7 +194,7 @@ where
         });
         ctx.eval();
         if got != want {
-            ctx.violation(&format!("{}:large:node_count-differs-from-traversal", K::NAME), format!("partial {} of OR_i(x_i & x_(i+16)): node_count() = {got}, traversal finds {want}", i + 1));
+            ctx.violation(&format!("{}:large:node_count-differs-from-traversal", K::NAME), format!("partial {} of OR_i(x_i & x_(i+{k})): node_count() = {got}, traversal finds {want}", i + 1));
         }
         acc = mix(acc, got as u64);
         ctx.count_max("max_large_node_count", got as u64);
